@@ -63,3 +63,274 @@ Example c01_send_answers_accepted_nonvacuous :
   option_map snd (step (st_of ex_cfg ex_tr_batch) (LRelDeliver 0)) =
     Some [OSend true true [{| r_id := [49%N]; r_body := BRes [52%N] |}; {| r_id := [50%N]; r_body := BRes [51%N] |}]].
 Proof. vm_compute. repeat split; auto. discriminate. Qed.
+
+(** * C01: a finished unit was delivered iff it has something to say *)
+(* how a unit becomes finished: by its deliver step, or silently *)
+Definition rfin (u : nat) (s s' : state) : Prop :=
+  ext2 s s' /\ (ufin s u = false -> ufin s' u = true -> responses (unit_tasks s' u) = []).
+
+Lemma ufin_lt s u : ufin s u = true -> u < length (units s).
+Proof. unfold ufin. destruct (nth_error (units s) u) eqn:E; [|discriminate]. intros _. eapply nth_error_some_lt; eauto. Qed.
+
+Lemma rfin_refl u s : rfin u s s.
+Proof. split; [apply ext2_refl|]. congruence. Qed.
+
+Lemma rfin_trans u a b d : rfin u a b -> rfin u b d -> rfin u a d.
+Proof.
+  intros [X1 F1] [X2 F2]. split; [eapply ext2_trans; eauto|]. intros Fa Fd.
+  destruct (ufin b u) eqn:Fb; [|auto].
+  apply (silent_stable b d u X2); [apply ufin_lt; auto|]. auto.
+Qed.
+
+Lemma ufin_dequeue s u : ufin (dequeue s) u = true -> ufin s u = true.
+Proof.
+  unfold dequeue. destruct (inq s) as [|[b ms] q]; [destruct (running s); auto|].
+  unfold ufin. cbn. destruct (Nat.lt_ge_cases u (length (units s))) as [Lt|Ge].
+  - rewrite nth_error_app1 by auto. auto.
+  - rewrite nth_error_app2 by auto. destruct (u - length (units s)) as [|[|n]]; cbn; discriminate.
+Qed.
+
+Lemma rfin_raw c u s l s1 os : reachf c s -> crash s = None -> step_raw s l = Some (s1, os) -> l <> LRelDeliver u ->
+  rfin u s s1.
+Proof.
+  intros R Cr H Nl. split; [eapply raw_ext2; eauto|]. intros F0 F1. exfalso.
+  pose proof (reachf_inv _ _ R) as I.
+  destruct (raw_shape_ok _ _ _ _ I H) as [U L| -> |v un El Ev Sv U L].
+  - unfold ufin in *. rewrite U in F1. congruence.
+  - apply ufin_dequeue in F1. congruence.
+  - unfold ufin in *. rewrite U, nth_error_upd_nth_neq in F1; [congruence|]. intros <-. auto.
+Qed.
+
+Lemma rfin_settle1 c u s s' os : reachf c s -> settle1 s = Some (s', os) -> rfin u s s'.
+Proof.
+  intros R H. split; [eapply settle1_ext2; eauto|]. intros F0 F1.
+  apply settle1_inv in H. destruct H; try (exfalso; unfold ufin in *; cbn in F1; congruence).
+  - exfalso. apply ufin_dequeue in F1. congruence.
+  - exfalso. unfold ufin in *. cbn in F1. rewrite nth_error_upd_nth in F1.
+    destruct (Nat.eqb_spec u0 u) as [->|N]; [|congruence]. rewrite H1 in F1. cbn in F1. discriminate.
+  - destruct (Nat.eq_dec i u) as [->|N]; [exact H1|].
+    exfalso. unfold ufin in *. cbn in F1. rewrite nth_error_upd_nth_neq in F1 by auto. congruence.
+  - exfalso. unfold ufin in *. cbn in F1. rewrite nth_error_upd_nth in F1.
+    destruct (Nat.eqb_spec i u) as [->|N]; [|congruence]. rewrite H0 in F1. cbn in F1. discriminate.
+Qed.
+
+Lemma finish_cause c s l s' os u : reachf c s -> step s l = Some (s', os) -> ufin s u = false -> ufin s' u = true ->
+  l = LRelDeliver u \/ responses (unit_tasks s' u) = [].
+Proof.
+  intros R H F0 F1.
+  assert (D : {l = LRelDeliver u} + {l <> LRelDeliver u}).
+  { destruct l; try (right; discriminate). destruct (Nat.eq_dec u0 u) as [->|N]; [left; auto|right; congruence]. }
+  destruct D as [->|Nl]; [left; auto|right].
+  apply step_decompose in H as (Cr & s1 & os1 & Hr & Hs).
+  pose proof (rfin_raw c u _ _ _ _ R Cr Hr Nl) as R1.
+  destruct Hs as [(_ & -> & _)|(_ & Hs)]; [apply R1; auto|].
+  assert (R2 : rfin u s1 s').
+  { apply (lift_settle c (rfin u) (rfin_refl u) (rfin_trans u) (rfin_settle1 c u) _ _ _ _ _ (rf_raw _ _ _ _ _ R Cr Hr) Hs). }
+  apply (rfin_trans u _ _ _ R1 R2); auto.
+Qed.
+
+Lemma delivered_once_from c u : forall tr s s' oss, reachf c s -> ufin s u = false -> run s tr = Some (s', oss) ->
+  ufin s' u = true -> responses (unit_tasks s' u) <> [] -> countb (is_deliver u) tr = 1.
+Proof.
+  induction tr as [|l r IH]; intros s s' oss R F0 H F1 Ns.
+  - cbn in H. injection H as <- _. congruence.
+  - cbn in H. destruct (step s l) as [[s1 os]|] eqn:St; [|discriminate].
+    destruct (run s1 r) as [[s2 oss2]|] eqn:Rn; [|discriminate]. injection H as <- _.
+    assert (R1 : reachf c s1) by (eapply step_reachf; eauto).
+    cbn [countb]. destruct (ufin s1 u) eqn:F.
+    + destruct (finish_cause _ _ _ _ _ _ R St F0 F) as [->|Z].
+      * pose proof (deliver_once_from c u r _ _ _ R1 Rn) as B. rewrite F in B. cbn. rewrite Nat.eqb_refl. lia.
+      * exfalso. apply Ns. apply (silent_stable s1 s2 u); [eapply run_ext2; eauto|apply ufin_lt; auto|auto].
+    + rewrite (IH _ _ _ R1 F Rn F1 Ns). destruct (is_deliver u l) eqn:D; auto. exfalso.
+      destruct l; try discriminate D. cbn in D. apply Nat.eqb_eq in D. subst u0.
+      destruct (deliver_finishes _ _ _ _ _ R St) as [Cr|F']; [|congruence].
+      pose proof (run_crashed _ _ _ _ Cr Rn) as Er. subst r. cbn in Rn. injection Rn as <- _. congruence.
+Qed.
+
+Lemma ufin_init c u : ufin (init_of c) u = false.
+Proof. unfold ufin. cbn. destruct u; reflexivity. Qed.
+
+(* the deliver window of a unit in a reachable state: it sends the unit's reply and finishes the unit *)
+Lemma deliver_window_nc c s u s' os : reach c s -> step s (LRelDeliver u) = Some (s', os) ->
+  exists un ok extra, nth_error (units s) u = Some un /\ u_st un = UAtDeliver /\ all_finished s u = true /\
+    os = OSend ok (u_batch un) (responses (unit_tasks s u)) :: extra /\ Forall settle_obs extra /\ ufin s' u = true.
+Proof.
+  intros R H. pose proof (no_crash_step _ _ _ _ _ R H) as Nc.
+  destruct (c01_deliver_window _ _ _ _ _ R H) as (un & Eu & Su & Fin & [(Ck & ok & extra & -> & Fa)|(Ck & ->)]).
+  - exists un, ok, extra. repeat split; auto.
+    destruct (deliver_finishes _ _ _ _ _ (reach_reachf _ _ R) H) as [Cr|F]; [congruence|auto].
+  - exfalso. apply step_decompose in H as (Cr & s1 & os1 & Hr & Hs). unfold step_raw in Hr.
+    rewrite Eu, Su, Ck in Hr. cbn in Hr. injection Hr as <- <-.
+    destruct Hs as [(_ & -> & _)|(Cr1 & _)]; cbn in *; congruence.
+Qed.
+
+(** ** responses of a finished unit never change *)
+Lemma list_ext_split {A} (R : A -> A -> Prop) : forall l l', list_ext R l l' ->
+  exists l1 l2, l' = l1 ++ l2 /\ Forall2 R l l1.
+Proof.
+  induction l as [|x l IH]; intros l' X.
+  - exists [], l'. split; auto.
+  - destruct (X 0 x eq_refl) as (y & E & Rxy). destruct l' as [|y' l'']; [discriminate|]. cbn in E. injection E as ->.
+    destruct (IH l'') as (l1 & l2 & -> & F). { intros k a Ek. apply (X (S k) a Ek). }
+    exists (y :: l1), l2. split; auto.
+Qed.
+
+Lemma forall2_length {A B} (R : A -> B -> Prop) l l' : Forall2 R l l' -> length l = length l'.
+Proof. induction 1; cbn; auto. Qed.
+
+Lemma response_of_finished_le t t' : task_le t t' -> finished t = true -> response_of t' = response_of t.
+Proof.
+  intros [_ Li _ _ Lp _ _ _ (_ & Sk & Dn & _)] F.
+  assert (St : t_st t' = t_st t).
+  { unfold finished in F. destruct (t_st t) eqn:E; try discriminate.
+    - exact (proj1 Sk eq_refl).
+    - exact (Dn _ eq_refl). }
+  unfold response_of, is_note, task_body. rewrite Li, Lp, St. reflexivity.
+Qed.
+
+Lemma responses_filter_le u : forall ts l1, Forall2 task_le ts l1 ->
+  forallb finished (filter (fun t => t_unit t =? u) ts) = true ->
+  responses (filter (fun t => t_unit t =? u) l1) = responses (filter (fun t => t_unit t =? u) ts).
+Proof.
+  induction 1 as [|t t' ts l1 Le _ IH]; cbn; auto. intros F.
+  rewrite (tl_unit _ _ Le). destruct (t_unit t =? u); [|auto].
+  cbn in F. apply andb_true_iff in F as [Ft Fr]. cbn.
+  rewrite (response_of_finished_le _ _ Le Ft), (IH Fr). reflexivity.
+Qed.
+
+Lemma responses_stable s s' u : ext2 s s' -> u < length (units s) -> all_finished s u = true ->
+  responses (unit_tasks s' u) = responses (unit_tasks s u).
+Proof.
+  intros [[X _] Fr] Lu Fin. unfold unit_tasks.
+  destruct (list_ext_split _ _ _ X) as (l1 & l2 & E & F2). rewrite E, filter_app.
+  rewrite (filter_none _ l2), app_nil_r.
+  - apply responses_filter_le; auto.
+  - intros t It. apply In_nth_error in It as [j Ej].
+    assert (Ek : nth_error (tasks s') (length (tasks s) + j) = Some t).
+    { rewrite E, nth_error_app2; rewrite <- (forall2_length _ _ _ F2); [|lia]. rewrite <- Ej. f_equal. lia. }
+    assert (Ge : length (tasks s) <= length (tasks s) + j) by lia.
+    pose proof (Fr _ _ Ge Ek). apply Nat.eqb_neq. lia.
+Qed.
+
+(** ** the output history *)
+Definition send_of (u : nat) (o : obs) : list (nat * bool * list rsp) :=
+  match o with OSend _ b rs => [(u, b, rs)] | _ => [] end.
+
+(* the messages sent by deliver windows, in trace order, each with the unit it belongs to *)
+Fixpoint unit_sends (tr : list label) (oss : list (list obs)) : list (nat * bool * list rsp) :=
+  match tr, oss with
+  | l :: r, os :: oss' =>
+      (match l with LRelDeliver u => flat_map (send_of u) os | _ => [] end) ++ unit_sends r oss'
+  | _, _ => []
+  end.
+
+Fixpoint delivered (tr : list label) : list nat :=
+  match tr with
+  | [] => []
+  | LRelDeliver u :: r => u :: delivered r
+  | _ :: r => delivered r
+  end.
+
+Definition ubatch (s : state) (u : nat) : bool :=
+  match nth_error (units s) u with Some un => u_batch un | None => false end.
+
+Lemma flat_send_settle u extra : Forall settle_obs extra -> flat_map (send_of u) extra = [].
+Proof. induction 1 as [|o r Ho _ IH]; cbn; auto. destruct o; cbn in *; auto; tauto. Qed.
+
+Lemma unit_sends_from c : forall tr s s' oss, reach c s -> run s tr = Some (s', oss) ->
+  unit_sends tr oss = map (fun u => (u, ubatch s' u, responses (unit_tasks s' u))) (delivered tr).
+Proof.
+  induction tr as [|l r IH]; intros s s' oss R H.
+  - cbn in H. injection H as <- <-. reflexivity.
+  - cbn in H. destruct (step s l) as [[s1 os]|] eqn:St; [|discriminate].
+    destruct (run s1 r) as [[s2 oss2]|] eqn:Rn; [|discriminate]. injection H as <- <-.
+    assert (R1 : reach c s1) by (eapply reach_step; eauto).
+    cbn [unit_sends]. rewrite (IH _ _ _ R1 Rn).
+    destruct l; cbn [delivered app]; auto.
+    assert (Hr : run s (LRelDeliver u :: r) = Some (s2, os :: oss2)) by (cbn; rewrite St, Rn; reflexivity).
+    destruct (deliver_window_nc _ _ _ _ _ R St) as (un & ok & extra & Eu & Su & Fin & -> & Fa & F1).
+    cbn [flat_map send_of]. rewrite (flat_send_settle u extra Fa). cbn [app map]. f_equal.
+    pose proof (reach_reachf _ _ R) as Rf.
+    destruct (run_unit_le _ _ _ _ _ _ _ Rf Hr Eu) as (un' & Eu' & Le).
+    unfold ubatch. rewrite Eu', (ul_batch _ _ Le).
+    rewrite (responses_stable s s2 u); auto.
+    + eapply run_ext2; eauto.
+    + eapply nth_error_some_lt; eauto.
+Qed.
+
+Lemma delivered_count u : forall tr, In u (delivered tr) <-> 0 < countb (is_deliver u) tr.
+Proof.
+  induction tr as [|l r IH]; cbn; [split; [tauto|lia]|].
+  destruct l; cbn; rewrite ?IH; try tauto.
+  destruct (Nat.eqb_spec u0 u) as [->|N]; split; intros H; try lia; auto.
+  all: destruct H as [H|H]; [congruence|lia].
+Qed.
+
+Lemma delivered_nodup : forall tr, (forall u, countb (is_deliver u) tr <= 1) -> NoDup (delivered tr).
+Proof.
+  induction tr as [|l r IH]; intros B; [constructor|].
+  assert (Br : forall u, countb (is_deliver u) r <= 1).
+  { intros u. specialize (B u). cbn in B. destruct (is_deliver u l); lia. }
+  destruct l; cbn; auto. constructor; auto.
+  intros I. apply delivered_count in I. specialize (B u). cbn in B. rewrite Nat.eqb_refl in B. lia.
+Qed.
+
+Lemma delivered_nonsilent c u : forall tr s s' oss, reach c s -> run s tr = Some (s', oss) -> In u (delivered tr) ->
+  ufin s' u = true /\ responses (unit_tasks s' u) <> [].
+Proof.
+  induction tr as [|l r IH]; intros s s' oss R H I; [destruct I|].
+  cbn in H. destruct (step s l) as [[s1 os]|] eqn:St; [|discriminate].
+  destruct (run s1 r) as [[s2 oss2]|] eqn:Rn; [|discriminate]. injection H as <- _.
+  assert (R1 : reach c s1) by (eapply reach_step; eauto).
+  assert (Rest : In u (delivered r) -> ufin s2 u = true /\ responses (unit_tasks s2 u) <> []) by (eapply IH; eauto).
+  destruct l; cbn in I; auto. destruct I as [->|I]; auto.
+  destruct (deliver_window_nc _ _ _ _ _ R St) as (un & ok & extra & Eu & Su & Fin & _ & _ & F1).
+  pose proof (reach_reachf _ _ R) as Rf. pose proof (reach_reachf _ _ R1) as Rf1. split.
+  - eapply ufin_mono; [|exact F1]. apply (run_ext _ _ _ _ _ Rf1 Rn).
+  - intros Z. apply (reachf_inv_deliv c s Rf u un Eu Su).
+    assert (Hr : run s (LRelDeliver u :: r) = Some (s2, os :: oss2)) by (cbn; rewrite St, Rn; reflexivity).
+    apply (silent_stable s s2 u); auto; [eapply run_ext2; eauto|eapply nth_error_some_lt; eauto].
+Qed.
+
+(* C01: a finished unit with something to say was delivered exactly once; a finished unit with nothing to say never *)
+Theorem c01_delivered_iff_nonsilent c tr s oss u : run (init_of c) tr = Some (s, oss) -> ufin s u = true ->
+  (responses (unit_tasks s u) <> [] -> countb (is_deliver u) tr = 1) /\
+  (responses (unit_tasks s u) = [] -> countb (is_deliver u) tr = 0).
+Proof.
+  intros H F. split.
+  - intros Ns. eapply (delivered_once_from c u tr (init_of c)); eauto; [constructor|apply ufin_init].
+  - intros Z. destruct (countb (is_deliver u) tr) eqn:C; auto. exfalso.
+    assert (I : In u (delivered tr)) by (apply delivered_count; lia).
+    destruct (delivered_nonsilent c u tr _ _ _ (reach_init c) H I) as [_ Ns]. auto.
+Qed.
+
+(* C01: the messages sent by deliver windows are exactly the replies of the finished units that have something to
+   say: one message per such unit, with the unit's batch flag and the responses of its tasks (as they are at the end
+   of the trace: they never change once the unit is complete), in the order of the deliver windows *)
+Theorem c01_output_history c tr s oss : run (init_of c) tr = Some (s, oss) ->
+  unit_sends tr oss = map (fun u => (u, ubatch s u, responses (unit_tasks s u))) (delivered tr) /\
+  NoDup (delivered tr) /\
+  (forall u, In u (delivered tr) <-> ufin s u = true /\ responses (unit_tasks s u) <> []).
+Proof.
+  intros H. split; [|split].
+  - eapply unit_sends_from; eauto. apply reach_init.
+  - apply delivered_nodup. intros u. eapply c01_deliver_once; eauto.
+  - intros u. split.
+    + eapply delivered_nonsilent; eauto. apply reach_init.
+    + intros [F Ns]. apply delivered_count.
+      destruct (c01_delivered_iff_nonsilent c tr s oss u H F) as [A _]. rewrite (A Ns). lia.
+Qed.
+
+Example c01_output_history_nonvacuous :
+  let tr := ex_tr_batch ++ [LRelDeliver 0] in
+  run (init_of ex_cfg) tr <> None /\ delivered tr = [0] /\ ufin (st_of ex_cfg tr) 0 = true /\
+  unit_sends tr (obs_of ex_cfg tr) =
+    [(0, true, [{| r_id := [49%N]; r_body := BRes [52%N] |}; {| r_id := [50%N]; r_body := BRes [51%N] |}])].
+Proof. vm_compute. repeat split; auto. discriminate. Qed.
+
+(* a silent unit (one notification) finishes without any deliver window *)
+Example c01_silent_finished_nonvacuous :
+  let tr := ex_tr_note ++ [LRelHandled 0] in
+  run (init_of ex_cfg) tr <> None /\ ufin (st_of ex_cfg tr) 0 = true /\ responses (unit_tasks (st_of ex_cfg tr) 0) = [] /\
+  delivered tr = [] /\ unit_sends tr (obs_of ex_cfg tr) = [].
+Proof. vm_compute. repeat split; auto. discriminate. Qed.
